@@ -262,7 +262,14 @@ func c05Run(c *h.Ctx, cfgName string, cfg []*c05Issuer, kinds []string, t1, t2 *
 		_ = ri
 	}
 	var out []byte
-	pan, msg := h.Protect(func() { out, err = batched.NewBasicBatchedIssuer(is...).EvaluateBatch(br) })
+	pan, msg := h.Protect(func() {
+		bi := batched.NewBasicBatchedIssuer(is...)
+		// the caller's list is the caller's: it is reused for something else once the batch issuer is built
+		for k := range is {
+			is[k] = refuser{is[k], []byte("this slot of the caller's slice was reused after construction")}
+		}
+		out, err = bi.EvaluateBatch(br)
+	})
 	c.Count("batch:"+cfgName, 1, fmt.Sprint(cfgName, kinds, viaWire))
 	if pan || err != nil {
 		det["panic"] = msg
@@ -377,6 +384,48 @@ func runC05(c *h.Ctx) {
 		"refusing-with-body-only":    {t1.refusingWith(rnd(c, 7)), t2.refusingWith(rnd(c, 256))},
 		"refusing-with-body-then-ok": {t1.refusingWith(rnd(c, 145)), t1, t2.refusingWith(rnd(c, 7)), t2},
 		"ok-then-refusing-with-body": {t1, t1.refusingWith(rnd(c, 145)), t2, t2.refusingWith(rnd(c, 256))},
+	}
+	// many issuers of one type, two of them sharing the truncated key id: the FIRST registered answers, wherever the
+	// pair stands in the list
+	var manyNames []string
+	pairs := [][2]int{{0, 13}, {3, 9}, {6, 7}, {1, 12}, {0, 1}, {12, 13}, {5, 11}}
+	for len(pairs) < 30 {
+		a := c.Rng.Intn(15)
+		b := a + 1 + c.Rng.Intn(16-a-1)
+		pairs = append(pairs, [2]int{a, b})
+	}
+	for pi, pos := range pairs {
+		var l []*c05Issuer
+		size := 14
+		if pi >= 7 {
+			size = 16 + pi%9 // other list lengths as well
+			if pos[1] >= size {
+				pos[1] = size - 1
+			}
+		}
+		for len(l) < size {
+			switch len(l) {
+			case pos[0]:
+				l = append(l, t1)
+			case pos[1]:
+				l = append(l, t1share)
+			default:
+				f := newC05Type1(c, "filler")
+				if f.kid[31] != t1.kid[31] {
+					l = append(l, f)
+				}
+			}
+		}
+		n := fmt.Sprintf("many-type1-%d-pair-at-%d-%d", size, pos[0], pos[1])
+		configs[n] = append(l, t2)
+		manyNames = append(manyNames, n)
+	}
+	for ni, n := range manyNames {
+		c05Run(c, n, configs[n], []string{"t1:known"}, t1, t2, true)
+		if ni < 3 || c.Thorough() {
+			c05Run(c, n, configs[n], []string{"t1:known", "t2:known", "t1:known"}, t1, t2, true)
+			c05Run(c, n, configs[n], []string{"t1:unknown-key-id", "t1:known"}, t1, t2, false)
+		}
 	}
 	names := []string{"both", "both-reversed", "type1-only", "type2-only", "two-type1-shared-last-byte", "shared-last-byte-reversed", "cross-type-last-byte", "cross-type-last-byte-rev", "other-keys-only", "duplicate-issuer", "refusing-then-serving", "serving-then-refusing", "refusing-only", "refusing-with-body-only", "refusing-with-body-then-ok", "ok-then-refusing-with-body"}
 	kinds := []string{"t1:known", "t2:known", "t1:unknown-key-id", "t2:unknown-key-id", "t1:off-curve", "t1:identity", "t1:zero-prefix-49", "t1:short", "t1:long", "t2:above-modulus", "t2:short", "t2:empty"}
